@@ -35,9 +35,10 @@ const (
 	E4xx
 	Conn
 	Hang
+	E3xx // 300 Multiple Choices: not followed by Go's client, not a success, not worth a retry
 )
 
-var Names = []string{"success", "503", "400", "conn-error", "hang"}
+var Names = []string{"success", "503", "400", "conn-error", "hang", "300"}
 
 // JSONBody: the integration under test posts a JSON document (all four do).
 var JSONBody = true
@@ -98,6 +99,8 @@ func (s *RT) RoundTrip(req *http.Request) (*http.Response, error) {
 		return mk(503, "{}", "application/json")
 	case E4xx:
 		return mk(400, "{}", "application/json")
+	case E3xx:
+		return mk(300, "{}", "application/json")
 	case Conn:
 		return nil, fmt.Errorf("dial tcp 10.0.0.1:80: connect: connection refused")
 	case Hang:
@@ -156,7 +159,7 @@ func Law(seq []int, att []Attempt, end time.Duration, err error, own, flush time
 		}
 		last := i == len(att)-1
 		switch a.Outcome {
-		case OK, E4xx:
+		case OK, E4xx, E3xx:
 			if !last {
 				return fmt.Sprintf("attempt %d answered %s and is followed by another attempt", i, Names[a.Outcome])
 			}
@@ -238,10 +241,10 @@ func Explore(t *testing.T, prop, part string, build Build) {
 		if len(cur) == maxLen {
 			return
 		}
-		if len(cur) > 0 && (cur[len(cur)-1] == OK || cur[len(cur)-1] == E4xx) {
+		if len(cur) > 0 && (cur[len(cur)-1] == OK || cur[len(cur)-1] == E4xx || cur[len(cur)-1] == E3xx) {
 			return // nothing is scripted after a final answer
 		}
-		for o := 0; o < 5; o++ {
+		for o := 0; o < len(Names); o++ {
 			gen(append(cur, o))
 		}
 	}
@@ -269,6 +272,6 @@ func Explore(t *testing.T, prop, part string, build Build) {
 		}
 	}
 	R.Exhaustive = true
-	R.Bound = fmt.Sprintf("every answer sequence of length <= %d over {success, 503, 400, connection error, hang} (success afterwards) x integration timeout {none, 3s} x flush deadline {10s, 31s}: %d sequences", maxLen, len(seqs))
+	R.Bound = fmt.Sprintf("every answer sequence of length <= %d over {success, 503, 400, 300, connection error, hang} (success afterwards) x integration timeout {none, 3s} x flush deadline {10s, 31s}: %d sequences", maxLen, len(seqs))
 	R.Write()
 }
